@@ -88,6 +88,7 @@ type Interp struct {
 	fnInfos map[*ssa.Function]*fnInfo
 	astTypes map[reflect.Type]*types.Struct
 	l1 *l1Prog
+	syncMaps map[string]*MapV
 	curFn *ssa.Function
 	posOverride map[*token.FileSet]posAnswer
 	matchers map[*ahocorasick.Matcher][]string
